@@ -105,14 +105,19 @@ def section10():
                "first reported only as `no-failing-input-found` and now with a failing input: C01-1 (per-axis width tuples in the KB dot test), "
                "C15-3 (PDHG families with saturating prox on both sides), C13-2 (operators returning their argument), "
                "C16-2 (apps receive the caller's arrays, which are reused and compared).\n")
-    out.append("**Round 3 (this session).** 51 further changes (`Cxx-r3-k`) with a different flavour — interactions of two options, "
+    out.append("**Rounds 3 and 4 (this session).** 51 further changes (`Cxx-r3-k`) with a different flavour — interactions of two options, "
                "boundary conditions at exact ties, precision / dtype paths, error handling, `__init__` vs `_apply` inconsistencies, "
                "order of operations on one object, helper-module changes, argument aliasing. First measurement: 10 were missed and 9 "
                "more were reported only as `no-failing-input-found`; together with 12 such leftovers of rounds 1-2 they were given to "
                "hardening agents who had to widen the CLASS of inputs the check explores (storage dtypes, memory layouts, magnitudes, "
                "argument forms, histories of live objects, call sequences against fresh-process references, tolerances tied to measured "
-               "accuracy) without special-casing a patch and keep seeds 0..9 quiet on the unchanged tree. Final matrix over all 163 "
-               "changes (table above): 161 are reported with a concrete failing input by their own property's quick check; C16-r3-2 "
+               "accuracy) without special-casing a patch and keep seeds 0..9 quiet on the unchanged tree. A fourth small round (12 changes for C01, C03, C05, C09, C11, C13, written "
+               "AFTER the round-3 hardening as a measurement of how the widened checks generalise) was found 9 / 12 with a failing "
+               "input at first sight, 2 as `no-failing-input-found` (C03-r4-1 Vstack flattening in memory order, C11-r4-2 an L1Reg "
+               "weight array scaled in place across calls) and 1 missed (C01-r4-2: the conjugate skipped for a numpy.complex64 scalar "
+               "multiplier); three more hardening passes (memory layouts under stacking operators; array weights and call histories "
+               "on one prox object; scalar multiplier types) closed them. Final matrix over all 175 "
+               "changes (table above): 173 are reported with a concrete failing input by their own property's quick check; C16-r3-2 "
                "(LinearLeastSquares GradientMethod step from A.N alone) breaks 8 theorems of the generated set-up (C14 / C16Recon) but the "
                "C16 search finds no failing input within its iteration budget (`no-failing-input-found`; the C14 check finds one); "
                "C16-r3-3 (prox.Conj called with alpha instead of 1/alpha, visible in TotalVariationRecon only with the `sigma=` / `tau=` "
